@@ -500,6 +500,9 @@ func (db *DB) doProcessIterations(iterations []*iteration) {
 		remainingIterations[i] = it
 	}
 
+	// errors of individual iterations, keyed like remainingIterations
+	iterationErrs := make(map[int]error)
+
 	combinedOnValue := func(dims bytemap.ByteMap, vals []encoding.Sequence) (bool, error) {
 		more := false
 		for i, it := range remainingIterations {
@@ -513,6 +516,13 @@ func (db *DB) doProcessIterations(iterations []*iteration) {
 			itMore, err := it.onValue(dims, itVals)
 			if err != nil {
 				it.t.log.Errorf("Error while iterating: %v", err)
+				if len(iterations) > 1 {
+					// Only this iteration failed: stop feeding it, remember its error and
+					// carry on for the others.
+					iterationErrs[i] = err
+					delete(remainingIterations, i)
+					continue
+				}
 				return false, err
 			}
 			if !itMore {
@@ -534,6 +544,19 @@ func (db *DB) doProcessIterations(iterations []*iteration) {
 	offsetsBySource, err := iterations[0].t.rowStore.iterate(newCtx, allOutFields, includeMemStore, combinedOnValue)
 	if err != nil {
 		iterations[0].t.log.Errorf("Got error while iterating: %v", err)
+	}
+	if len(iterationErrs) > 0 {
+		// report their own error to the iterations that failed individually
+		succeeded := make([]*iteration, 0, len(iterations))
+		for i, it := range iterations {
+			if itErr, failed := iterationErrs[i]; failed {
+				it.offsetsCh <- offsetsBySource
+				it.errCh <- itErr
+			} else {
+				succeeded = append(succeeded, it)
+			}
+		}
+		iterations = succeeded
 	}
 	for _, it := range iterations {
 		it.offsetsCh <- offsetsBySource
